@@ -87,28 +87,20 @@ impl super::Selector<Interest, Event, Events> for Poller {
         inner.poll(events, timeout)
     }
 
-    #[allow(clippy::cast_possible_truncation)]
     fn do_register(&self, fd: c_int, token: u64, interests: Interest) -> std::io::Result<()> {
         self.registry().register(
             &mut SourceFd(&fd),
-            Token(
-                ((token >> 32) as u32 ^ token as u32)
-                    .try_into()
-                    .expect("token overflow"),
-            ),
+            // the whole 64-bit token: the event must carry exactly what `resume` looks up
+            Token(usize::try_from(token).expect("token overflow")),
             interests,
         )
     }
 
-    #[allow(clippy::cast_possible_truncation)]
     fn do_reregister(&self, fd: c_int, token: u64, interests: Interest) -> std::io::Result<()> {
         self.registry().reregister(
             &mut SourceFd(&fd),
-            Token(
-                ((token >> 32) as u32 ^ token as u32)
-                    .try_into()
-                    .expect("token overflow"),
-            ),
+            // the whole 64-bit token: the event must carry exactly what `resume` looks up
+            Token(usize::try_from(token).expect("token overflow")),
             interests,
         )
     }
